@@ -413,7 +413,40 @@ func CalleeObj(c ssa.CallInstruction) *types.Func {
 			return obj.Origin()
 		}
 	}
+	// a method value (`unlock := l.Unlock; defer unlock()`), possibly handed back by a helper: the bound method
+	if mk := BoundMethodClosure(c); mk != nil {
+		if fn, ok := mk.Fn.(*ssa.Function); ok {
+			if obj, ok := fn.Object().(*types.Func); ok {
+				return obj.Origin()
+			}
+		}
+	}
 	return nil
+}
+
+// BoundMethodClosure returns the closure go/ssa builds for a method value (x.M used as a func value) when the call's
+// callee resolves to one; its single binding is the receiver.
+func BoundMethodClosure(c ssa.CallInstruction) *ssa.MakeClosure {
+	cc := c.Common()
+	if cc.IsInvoke() {
+		return nil
+	}
+	var v ssa.Value = cc.Value
+	if _, isFn := v.(*ssa.Function); isFn {
+		return nil
+	}
+	mk, ok := v.(*ssa.MakeClosure)
+	if !ok {
+		mk, ok = Resolve(v).(*ssa.MakeClosure)
+	}
+	if !ok {
+		return nil
+	}
+	fn, isFn := mk.Fn.(*ssa.Function)
+	if !isFn || !strings.HasPrefix(fn.Synthetic, "bound method wrapper") || len(mk.Bindings) != 1 {
+		return nil
+	}
+	return mk
 }
 
 // CalleeName is QName(CalleeObj(c)); "" when unresolved; "builtin.X" for builtins.
